@@ -467,7 +467,7 @@ pub fn check_c06_static(case: &CaseSpec, built: &Built) -> Option<Violation> {
                     EdgeKind::Logic => BEdge::Logic,
                     EdgeKind::Contains => BEdge::Contains,
                 };
-                if k != want {
+                if k != want && !(built.kind_unsure.iter().any(|e| e.0 == a && e.1 == b) && k != BEdge::Data) {
                     return Some(v(
                         Prop::C06,
                         "user-edge-kind-changed",
@@ -475,6 +475,9 @@ pub fn check_c06_static(case: &CaseSpec, built: &Built) -> Option<Violation> {
                         format!("edge {a}->{b} given as {uk:?} is {k:?} in the built graph"),
                     ));
                 }
+            }
+            None if built.maybe.iter().any(|e| e.0 == a && e.1 == b) && k != BEdge::Data => {
+                // recorded from a batch call that was rejected further on: not relied upon
             }
             None => {
                 if k != BEdge::Data || !conflict(case, a, b) {
